@@ -24,6 +24,11 @@ pub enum Edit {
     RootClone,
     /// the whole program works on clones; gradients are read through the originals
     LeafClones,
+    /// the leaves are created untracked; the program works on `raw.clone().tracked()`; the
+    /// gradients must be visible through the raw handles
+    CloneThenTrack,
+    /// a custom operation without a derivative (a metric) is applied to the leaves first
+    MetricFirst,
 }
 
 fn reference(ra: &T, rb: &T) -> T {
@@ -33,7 +38,14 @@ fn reference(ra: &T, rb: &T) -> T {
 
 pub fn edit<S: Source>(s: &mut S, e: Edit) {
     let leaves = [leaf(&[2], Dom::D4, true), leaf(&[2], Dom::D4, true)];
-    let bl = build(s, &leaves);
+    let mut bl = build(s, &leaves);
+    if e == Edit::CloneThenTrack {
+        // raw handles: same values, never marked tracked themselves
+        let ra = Array::from((vec![2], bl.arrays[0].values().to_vec()));
+        let rb = Array::from((vec![2], bl.arrays[1].values().to_vec()));
+        let old = std::mem::replace(&mut bl.arrays, vec![ra, rb]);
+        forget(old);
+    }
     let (a, b) = (&bl.arrays[0], &bl.arrays[1]);
     let rref = reference(&bl.refs[0], &bl.refs[1]);
     let root: Array = match e {
@@ -64,6 +76,31 @@ pub fn edit<S: Source>(s: &mut S, e: Edit) {
             c = &c + a;
             c = &c * b;
             c
+        }
+        Edit::CloneThenTrack => {
+            let (a2, b2) = (a.clone().tracked(), b.clone().tracked());
+            let p = &a2 * &b2;
+            let q = &p + &a2;
+            let r = &q * &b2;
+            forget((p, q, a2, b2));
+            r
+        }
+        Edit::MetricFirst => {
+            let max: corgi::array::ForwardOp = std::rc::Rc::new(|x: &[&Array]| {
+                let n = x[0].values().len();
+                let mut v = Vec::with_capacity(n);
+                for i in 0..n {
+                    let (p, q) = (x[0].values()[i], x[1].values()[i]);
+                    v.push(if p > q { p } else { q });
+                }
+                Array::from((x[0].dimensions().to_vec(), v))
+            });
+            let metric = Array::op(&[a, b], max, None);
+            let p = a * b;
+            let q = &p + a;
+            let r = &q * b;
+            forget((p, q, metric));
+            r
         }
         Edit::RootClone | Edit::LeafClones => {
             let (a2, b2) = (a.clone(), b.clone());
